@@ -63,6 +63,14 @@ def main():
                     pm = s['patterns'][s['orders'][7]]
                     if pm is not p0: pm[5][1] = dict(pm[5][1] or {}, fx=('tempo', hi + 8))
                     s['restart'] = 0x7f; s['speed'] = 6; s['bpm'] = 125
+                if fmt in ("mod", "xm") and i % 20 in (1, 2):
+                    # a second sequence that contains the restart position: order 0 jumps to itself (sequence 0 is order 0 alone), orders
+                    # 1.. run off the end of the list and continue at the restart order, which lies inside them and is not their entry point
+                    s = modgen.random_flow_song(rng, fmt, vocab=('speed', 'delay'), max_orders=2, max_pats=4, density=0.05)
+                    while len(s['patterns']) < 4: s['patterns'].append(modgen.empty_pattern(64 if fmt == "mod" else rng.choice((8, 16, 64)), s['chn']))
+                    s['orders'] = [0] + [rng.randrange(1, 4) for _ in range(rng.choice((2, 3, 5)))]
+                    p0 = s['patterns'][0]; p0[min(len(p0) - 1, rng.choice((0, 3, 9)))][0] = dict(fx=('jump', 0))
+                    s['restart'] = rng.randrange(2, len(s['orders']))
                 songs.append((fmt, s))
         paths = []
         for i, (fmt, s) in enumerate(songs):
@@ -188,7 +196,16 @@ def main():
                 ck.count(); nseqs += 1; bad = None
                 if firstpos != seqs[k][0]: bad = "sequence %d: xmp_set_position(%d) played order %d first" % (k, seqs[k][0], firstpos)
                 elif not looped and sum(n for _, n in hist) < 59000: bad = "sequence %d: playback from its entry point ended without the loop counter incrementing" % k
+                elif not looped and seqs[k][1] < INT_MAX and t > seqs[k][1] + 2 * tick + 2:
+                    bad = "sequence %d (entry point %d): reported duration %d ms, but the loop counter had not incremented after %s ms of playback from its entry point" % (k, seqs[k][0], seqs[k][1], float(t))
                 elif looped and seqs[k][1] < INT_MAX and abs(seqs[k][1] - t) > tick + 1: bad = "sequence %d (entry point %d): reported duration %d ms, %s ms rendered until the loop counter incremented" % (k, seqs[k][0], seqs[k][1], float(t))
+                if not bad and len(w) >= 7 and hist:
+                    # the audio actually delivered (sample frames / sampling rate) against the time the tempos of the frames add up to: each
+                    # tick loses at most one sample frame to the whole-frame rounding of its size
+                    srate, delivered = int(w[5]), int(w[6]); nticks = sum(n for _, n in hist)
+                    t_audio = Fraction(delivered * 1000, srate)
+                    if not (t - Fraction(nticks * 1000, srate) - 1 <= t_audio <= t + 1):
+                        bad = "sequence %d played at %d Hz on a context used at 8000 Hz before: %s ms of audio delivered over frames whose tempos add up to %s ms" % (k, srate, float(t_audio), float(t))
                 if bad:
                     nd += 1
                     ck.violation({"engine": "linear", "format": fmt, "song": s, "what": bad, "sequence": k,
